@@ -95,6 +95,29 @@ func genCtrl(repo, out string) {
 	l.line("def staleOutputRule : Bool := %s", leanBool(staleOutput))
 	genCtrlTransform(repo, l)
 	genCtrlCleanup(repo, l)
+
+	// the error of the Modify step that is skipped: a conflict ON THE MAPPED OUTPUT (its namespace and type), nothing else
+	qualified := func(f *ast.File) bool {
+		n, ok := 0, true
+
+		ast.Inspect(f, func(nd ast.Node) bool {
+			if c, isCall := nd.(*ast.CallExpr); isCall && src(c.Fun) == "state.IsConflictError" {
+				n++
+
+				if src(c) != "state.IsConflictError( err, state.WithResourceNamespace(mappedOut.Metadata().Namespace()), state.WithResourceType(mappedOut.Metadata().Type()), )" &&
+					src(c) != "state.IsConflictError(err, state.WithResourceNamespace(mappedOut.Metadata().Namespace()), state.WithResourceType(mappedOut.Metadata().Type()))" {
+					ok = false
+				}
+			}
+
+			return true
+		})
+
+		return ok && n == 1
+	}
+
+	l.line("/-- qtransform reconcileRunning and transform processInputs skip a Modify error only if it is a conflict qualified by the mapped output's namespace and type -/")
+	l.line("def conflictSkipQualified : Bool := %s", leanBool(qualified(f) && qualified(parse(filepath.Join(repo, "pkg/controller/generic/transform/controller.go")))))
 	l.write(out, ns)
 }
 
